@@ -16,7 +16,8 @@ _BIND = ('Binding: TLC-generated behaviours (AtomicCall generation configs, -sim
          'CacheTrace.tla (silent steps for what cannot be logged, all invariants evaluated at every step, acceptance by POSTCONDITION). ')
 _TRUST = ('Trusted: TLC, fakeredis as a model of Redis 7 tracking and MULTI/EXEC, the event order of the merged log (dispatcher mutex / '
           'before-call / after-return / callback after taking the dispatcher mutex), the barrier argument (a push queued behind frame n is '
-          'seen after n was processed). Bounded: 2-3 callers, 1-3 keys, versions <= 3, <= 1 cut, <= 1 expiry step in TLC; traces are '
+          'seen after n was processed); the Redis 6 wire shape is scripted by the driver (fakeredis extension ExecSplit / Untrack), not '
+          'produced by a Redis 6. Bounded: 2-3 callers, 1-3 keys, versions <= 3, <= 1 cut, <= 1 expiry step in TLC; traces are '
           'validated for a single wire only (multiplexed and cluster clients are judged by the predicted results).')
 
 CHECKS = {
@@ -26,7 +27,11 @@ CHECKS = {
     text=_COMMON + 'NoStaleHit (no value older than an invalidation the reader had processed before the call started; nothing from a store closed '
          'before the call started), Positional (every value is the reply to exactly that command) are checked exhaustively for 2 callers x <= 3 '
          'calls in OPTIN, OPTOUT (with uncached reads) and BCAST, with flush invalidations, cut/close/wire replacement and expiry; negative configs: '
-         'flush invalidations skipped, an invalidation overtaking the reply before it. ' + _BIND +
+         'flush invalidations skipped, an invalidation overtaking the reply before it. Round 2: several cacheable commands per key (a purge '
+         'that stops at a pending entry; CachePurge.tla: 3 / 10 commands per key, 1-2 in flight, write / flush, 16 cases) and a Redis 6 server '
+         '(LazyWrite / RepFrame.emb: invalidations embedded in the array reply of EXEC, applied before the Update; CacheR6.tla: 36 cases, '
+         'replayed by cachedrv -mode redis6 against a scripted wire shape incl. two pushes in one reply and a plain GET pipelined behind every '
+         'broken array for the routing of replies); negative configs: purge stops at a pending entry, embedded invalidation not applied. ' + _BIND +
          'Real runs: lru and NewSimpleCacheAdapter(map) stores x OPTIN / OPTOUT / BCAST(PREFIX) x GET / GETRANGE / JSON.GET / ToStaticTTL commands.',
     design_ref='DESIGN.md 4.3, 5 C06; design/cache.md',
     note=_TRUST),
@@ -39,7 +44,8 @@ CHECKS = {
          + _BIND + 'The #16 behaviours of Gen_stale.cfg are reproduced on the real client by holding the aborted owner at the cache.cancel hook: '
          'the trace is rejected by the repaired specification and accepted by the specification of the code as it is (known finding). The '
          'literal reading "never two requests in flight" (SingleRequest) is violated through late replies of abandoned requests (second known '
-         'finding, no wrong data).',
+         'finding, no wrong data). Round 2: a flight that stays pending for longer than the client TTL is still joined (Gen_pendexp '
+         'behaviours with a real sleep longer than the TTL; negative config: Flight replaces such an entry).',
     design_ref='DESIGN.md 4.3, 5 C09, 7 #16; design/cache.md',
     note=_TRUST),
  'C11': dict(
@@ -48,7 +54,8 @@ CHECKS = {
     text=_COMMON + 'Positional / NoHole for DoMultiCache and DoCache(MGET) batches with duplicates, hits, waits on other callers and own duplicates, '
          'misses, aborts; negative config: a refill walk that does not skip resolved waits. CacheCases.tla enumerates the full product: every batch '
          'of <= 3 (quick) / <= 4 (thorough) entries over 3 keys up to key renaming x DoMultiCache / MGET x every key state in {hit, pending by '
-         'another caller, miss, expired}; each case is executed on the real client: single wire (lru, adapter, MGetCache / JsonMGetCache helpers, '
+         'another caller, miss, expired, (round 2) pending by another caller whose request fails - at most one key} x (round 2) the batch\'s '
+         'own first transaction aborted or not; each case is executed on the real client: single wire (lru, adapter, MGetCache / JsonMGetCache helpers, '
          'JSON.GET / JSON.MGET, ToStaticTTL, BCAST, OPTOUT), two multiplexed wires (PipelineMultiplex 1) and a cluster of two scripted nodes '
          '(DoMultiCache / helper batches only: MGET shares identities with GET only on the wire of its first key).',
     design_ref='DESIGN.md 4.3, 5 C11; design/cache.md',
